@@ -39,8 +39,9 @@ var allKinds = []Kind{KI, KB, KS, KF, KT}
 
 // Val is a symbolic Go value: its static type and one term per slot.
 type Val struct {
-	T types.Type
-	S []Term
+	T   types.Type
+	S   []Term
+	Old *State // spec values only: dereference through this value in that (old) state
 }
 
 func (v Val) String() string { return fmt.Sprintf("%v%v", v.T, v.S) }
